@@ -1,6 +1,6 @@
 /* leaf proofs of co_string.c; -include'd in front of the TU. -DVW_OP=0..3 (Size,Read,Init,Reset) */
 #include "vw_defs.h"
-uint32_t H_STRSZ, H_NUL; uint8_t H_BK0;
+uint32_t H_STRSZ, H_NUL;
 #include "string.h"
 #include <stdlib.h>
 _Bool H_NULLDATA;
